@@ -1,5 +1,5 @@
 """Run batches of cases through a driver executable and parse the observation records."""
-import json, os, re, subprocess
+import json, os, re, subprocess, zlib
 from . import build
 
 HEX = bytes.hex
@@ -77,6 +77,12 @@ def run_lines(exe, lines, env=None, timeout=900, parse=True, raw=False, wrapper=
     Raises DriverCrash if the process dies; TimeoutError on watchdog."""
     data = ("\n".join(lines) + "\nQ\n").encode("ascii")
     cmd = (wrapper or []) + [exe]
+    if env is None:
+        # verdicts must not depend on where an input lies in memory: a deterministic half of all batches runs with the inputs at
+        # offsets 0..15 from the allocator's alignment (drivers honour VERIF_ALIGN; see drv/common.h)
+        env = build.san_env()
+        if lines and zlib.crc32(lines[0].encode("ascii", "replace")) & 1:
+            env["VERIF_ALIGN"] = "1"
     try:
         p = subprocess.run(cmd, input=data, stdout=subprocess.PIPE, stderr=subprocess.PIPE,
                            env=env or build.san_env(), timeout=timeout)
